@@ -1128,6 +1128,23 @@ impl HashColumn {
 		Ok(address.as_u64())
 	}
 
+	/// A node stores its number of children in a single byte.
+	fn check_node_representable(node: &NewNode) -> Result<()> {
+		if node.children.len() > u8::MAX as usize {
+			return Err(Error::InvalidInput(format!(
+				"Tree node has {} children, at most {} are supported",
+				node.children.len(),
+				u8::MAX
+			)))
+		}
+		for child in &node.children {
+			if let NodeRef::New(node) = child {
+				Self::check_node_representable(node)?;
+			}
+		}
+		Ok(())
+	}
+
 	/// returns value for the root node and vector of NodeChange for nodes.
 	pub fn claim_tree_values(
 		&self,
@@ -1135,6 +1152,7 @@ impl HashColumn {
 	) -> Result<(Vec<u8>, Vec<NodeChange>)> {
 		match change {
 			Operation::InsertTree(_key, node) => {
+				Self::check_node_representable(node)?;
 				let tables = self.tables.upgradable_read();
 
 				let values = self.as_ref(&tables.value);
